@@ -119,7 +119,8 @@ def run(ctx, env):
             why = "protocol_type is not an injected value"
             if ps and ps[0]["term"][0] == "value":
                 e = peel(ps[0]["term"][1])
-                okp = e[0] == "call" and e[2] is not None and e[2].id.startswith("<protocol::ProtocolTypes as std::convert::From<u8>>::from")
+                okp = e[0] == "call" and e[2] is not None and (e[2].id.startswith("<protocol::ProtocolTypes as std::convert::From<u8>>::from")
+                                                               or (e[2].nsyn == "std::convert::Into::into" and [a for a in (e[2].syn_args or [])] == ["u8", "protocol::ProtocolTypes"]))
                 why = "protocol_type = %s" % canon(e)[:200]
                 if okp:
                     # its argument must be the parsed protocol_number atom (closure capture of that local)
